@@ -36,6 +36,10 @@ func init() {
 			{ID: "R08h", Floor: 1, Doc: "NewOffsetReadSeeker hands out a fresh cursor on every call: concurrent readers (Roots, AllKeysChan, index generation) each rely on a private position over the shared backing", Run: ruleR08h},
 			{ID: "R08j", Floor: 6, Doc: "the lookup methods of the insertion index do not write to it: HasExactCID, HasMultihash, Get, GetAll, ForEach, ForEachCid, Marshal and Flatten store to no field of their receiver — StorageCar.Has and the read paths call them under the shared lock, concurrently", Run: ruleR08j},
 			{ID: "R08k", Floor: 1, Doc: "PutMany decides and inserts block by block: the de-duplication decision for a block sees every block already written by this or a concurrent call (= R01f)", Run: ruleR01f},
+			{ID: "R08l", Floor: 1, Doc: "no new mutable package-level state shared by all stores and readers (= R13k)", Run: ruleR13k},
+			{ID: "R08m", Floor: 2, Doc: "concurrent listings and Roots calls of the read-only store each have their own cursor (= R07q)", Run: ruleR07q},
+			{ID: "R08n", Floor: 2, Doc: "nothing is reported that was never put: an index hit is confirmed against the section's own CID/multihash before it is answered (= R07a)", Run: ruleR07a},
+			{ID: "R08o", Floor: 1, Doc: "methods the pinned tree keeps free of writes to their receiver stay so: a method of the library that stores nothing into memory reached from its receiver today (lookups, listings, inspections, getters — the table of those that do write is baseline_writers.txt) does not start to, directly, in a closure, or through a function the pinned tree does not have", Run: ruleR08o},
 			{ID: "R08d", Floor: 8, Doc: "guard-table completeness: every field of the concurrent types that is stored outside the constructor phase is in the guard table", Run: ruleR08d},
 			{ID: "R08i", Floor: 1, Doc: "the lazily created writer is remembered only when its construction succeeded (a failed first initialisation is retried, not turned into a nil writer for the next caller) (= R16f)", Run: ruleR16f},
 		},
@@ -74,7 +78,7 @@ func ruleR08a(c *Ctx, r *Report) {
 		bad := ""
 		for _, g := range la.funcs {
 			eachInstr(g, func(in ssa.Instruction) {
-				if ci, ok := in.(ssa.CallInstruction); ok && ci.Common().StaticCallee() == fn {
+				if ci, ok := in.(ssa.CallInstruction); ok && staticTarget(ci.Common()) == fn {
 					if _, ok := ctorPhase(c)[fnKey(la.topLevel(g))]; !ok {
 						bad = fmt.Sprintf("constructor-phase helper %s is called from %s at %s, outside object construction", k, fnKey(g), c.Pos(in.Pos()))
 					}
@@ -783,7 +787,7 @@ func ruleR08j(c *Ctx, r *Report) {
 							}
 						}
 					case ssa.CallInstruction:
-						if sc := x.Common().StaticCallee(); sc != nil && sc.Signature.Recv() != nil && isNamed(derefType(sc.Signature.Recv().Type()), pkgIndex, "InsertionIndex") {
+						if sc := staticTarget(x.Common()); sc != nil && sc.Signature.Recv() != nil && isNamed(derefType(sc.Signature.Recv().Type()), pkgIndex, "InsertionIndex") {
 							visit(sc, nil, depth+1)
 						}
 					}
